@@ -322,6 +322,138 @@ func classifyDispatch(fd *ast.FuncDecl) []string {
 	return out
 }
 
+// guardsShortPath: DrawRelation has an if whose condition contains `len(<...>.GetPath()) < 2` (or .Path) and whose
+// else branch holds the Path[0]/Path[1] indexing (the targetEntity allocation)
+func guardsShortPath(fd *ast.FuncDecl) string {
+	if fd == nil {
+		return "false"
+	}
+	var tpos token.Pos
+	if c := uniqueVarCall(fd.Body, recvVar(fd), "targetEntity"); c != nil {
+		tpos = c.Pos()
+	}
+	found := false
+	ast.Inspect(fd.Body, func(nd ast.Node) bool {
+		is, ok := nd.(*ast.IfStmt)
+		if !ok || is.Else == nil || tpos == token.NoPos || !(is.Else.Pos() <= tpos && tpos <= is.Else.End()) {
+			return true
+		}
+		ast.Inspect(is.Cond, func(c ast.Node) bool {
+			be, ok := c.(*ast.BinaryExpr)
+			if !ok || be.Op != token.LSS {
+				return true
+			}
+			lit, ok := be.Y.(*ast.BasicLit)
+			l, ok2 := be.X.(*ast.CallExpr)
+			if ok && ok2 && lit.Value == "2" && isIdent(l.Fun, "len") && len(l.Args) == 1 {
+				var last string
+				switch a := l.Args[0].(type) {
+				case *ast.CallExpr:
+					if ch := selChain(a.Fun); len(ch) > 0 {
+						last = ch[len(ch)-1]
+					} else if sel, ok := a.Fun.(*ast.SelectorExpr); ok {
+						last = sel.Sel.Name
+					}
+				case *ast.SelectorExpr:
+					last = a.Sel.Name
+				}
+				if last == "GetPath" || last == "Path" {
+					found = true
+				}
+			}
+			return true
+		})
+		return true
+	})
+	if found {
+		return "true"
+	}
+	return "false"
+}
+
+// classifyView: the per-application filter of GenerateDataView must be the single statement
+//
+//	if dataParam.Epname && strings.Split(entityName, ".")[0] != appName { continue }
+//
+// with appName := syslutil.JoinAppName(dataParam.App.Name); any other test guarded by Epname is UnknownView.
+func classifyView(fd *ast.FuncDecl) string {
+	if fd == nil {
+		return "UnknownView"
+	}
+	appNameOK := false
+	ast.Inspect(fd.Body, func(nd ast.Node) bool {
+		as, ok := nd.(*ast.AssignStmt)
+		if !ok || len(as.Lhs) != 1 || len(as.Rhs) != 1 || !isIdent(as.Lhs[0], "appName") {
+			return true
+		}
+		c, ok := as.Rhs[0].(*ast.CallExpr)
+		if ok && len(c.Args) == 1 {
+			ch, arg := selChain(c.Fun), selChain(c.Args[0])
+			if len(ch) == 2 && ch[1] == "JoinAppName" && len(arg) == 3 && arg[0] == "dataParam" && arg[1] == "App" && arg[2] == "Name" {
+				appNameOK = true
+				return true
+			}
+		}
+		appNameOK = false
+		return true
+	})
+	mentionsEpname := func(e ast.Expr) bool {
+		found := false
+		ast.Inspect(e, func(nd ast.Node) bool {
+			if sel, ok := nd.(*ast.SelectorExpr); ok && sel.Sel.Name == "Epname" {
+				found = true
+			}
+			return true
+		})
+		return found
+	}
+	n, good := 0, 0
+	ast.Inspect(fd.Body, func(nd ast.Node) bool {
+		is, ok := nd.(*ast.IfStmt)
+		if !ok || !mentionsEpname(is.Cond) {
+			return true
+		}
+		n++
+		be, ok := is.Cond.(*ast.BinaryExpr)
+		if !ok || be.Op != token.LAND || is.Init != nil || is.Else != nil || len(is.Body.List) != 1 {
+			return true
+		}
+		if br, ok := is.Body.List[0].(*ast.BranchStmt); !ok || br.Tok != token.CONTINUE {
+			return true
+		}
+		l := selChain(be.X)
+		if len(l) != 2 || l[0] != "dataParam" || l[1] != "Epname" {
+			return true
+		}
+		ne, ok := be.Y.(*ast.BinaryExpr)
+		if !ok || ne.Op != token.NEQ || !isIdent(ne.Y, "appName") {
+			return true
+		}
+		ix, ok := ne.X.(*ast.IndexExpr)
+		if !ok {
+			return true
+		}
+		lit, ok := ix.Index.(*ast.BasicLit)
+		if !ok || lit.Value != "0" {
+			return true
+		}
+		c, ok := ix.X.(*ast.CallExpr)
+		if !ok || len(c.Args) != 2 || !isIdent(c.Args[0], "entityName") {
+			return true
+		}
+		ch := selChain(c.Fun)
+		sep, ok := c.Args[1].(*ast.BasicLit)
+		if len(ch) == 2 && ch[0] == "strings" && ch[1] == "Split" && ok && sep.Value == `"."` {
+			good++
+		}
+		return true
+	})
+	if n == 1 && good == 1 && appNameOK {
+		return "ViewAppEq"
+	}
+	return "UnknownView"
+}
+
 func dmShape(repo string) (string, error) {
 	gf, err := parseGo(repo, "pkg/datamodeldiagram/datamodelview.go")
 	if err != nil {
@@ -341,9 +473,10 @@ func dmShape(repo string) (string, error) {
 	fmt.Fprintf(&b, "Definition shape_of_source : shape := {|\n")
 	fmt.Fprintf(&b, "  sh_rel_key := %s; sh_prim_key := %s; sh_tuple_key := %s; sh_enum_key := %s;\n",
 		classifyKey(m["DrawRelation"]), classifyKey(m["DrawPrimitive"]), classifyKey(m["DrawTuple"]), classifyKey(m["DrawEnum"]))
-	fmt.Fprintf(&b, "  sh_rel_target := %s; sh_rel_checks_target := %s;\n", classifyTarget(m["DrawRelation"]), checksTarget(m["DrawRelation"]))
+	fmt.Fprintf(&b, "  sh_rel_target := %s; sh_rel_guards_short_path := %s; sh_rel_checks_target := %s;\n", classifyTarget(m["DrawRelation"]), guardsShortPath(m["DrawRelation"]), checksTarget(m["DrawRelation"]))
 	fmt.Fprintf(&b, "  sh_rel_count_new := %s; sh_rel_count_again := %s;\n", rn, ra)
 	fmt.Fprintf(&b, "  sh_tuple_count_new := %s; sh_tuple_count_again := %s;\n", tn, ta)
-	fmt.Fprintf(&b, "  sh_dispatch := [%s]\n|}.\n", strings.Join(classifyDispatch(m["GenerateDataView"]), "; "))
+	fmt.Fprintf(&b, "  sh_dispatch := [%s];\n", strings.Join(classifyDispatch(m["GenerateDataView"]), "; "))
+	fmt.Fprintf(&b, "  sh_view := %s\n|}.\n", classifyView(m["GenerateDataView"]))
 	return b.String(), nil
 }
